@@ -81,9 +81,9 @@ CallClause(cfg, s, e) ==
       r == Br!Res(e.op, InLtype(cfg, e.op)) IN
   CASE s.n # s.need -> "items_missing"
     [] e.raised /\ o = Br!Err -> "ok"
-    \* the out-of-place add is implemented through the in-place add_ on a clone of the first operand:
-    \* when the broadcast lshape differs from the first operand's, raising is not judged
-    [] e.raised /\ e.op = "add" /\ o # cfg.s1 -> "ok"
+    \* (until repair 5e2bf0e the out-of-place add went through add_ on a clone of the first operand and raised whenever
+    \*  the broadcast lshape differed from the first operand's; that was tolerated here although the item-by-item clause
+    \*  covers it - the exemption hid a genuine defect and is gone: add broadcasts like every other binary operation)
     [] e.raised -> "raised_on_broadcastable"
     [] o = Br!Err -> "no_raise_on_unbroadcastable"
     [] Len(e.shape) # Len(o) + Len(r.tail) \/ SubSeq(e.shape, 1, Len(o)) # o -> "lshape"
